@@ -60,13 +60,15 @@ def build_object(rng, kind):
         h.set_attr_to_hypergraph_metadata(rng.choice(["name", "src", "note"]), rng.choice(["x", 3, [1, 2], {"a": None}]))
     elif r < 0.5:
         h.set_hypergraph_metadata({"custom": "only"})
+    elif r < 0.58:  # user metadata that happens to use the bookkeeping key, disagreeing with the real flag
+        h.set_attr_to_hypergraph_metadata("weighted", not h.is_weighted())
     if h.is_weighted() and rng.random() < 0.4:  # falsy weights must survive the round trip too
         from ..observe import lib_args, key_from_lib
         es = [e for e in h.get_edges() if len(e) > 0]
         if es:
             e = rng.choice(es)
             k = key_from_lib(kind, e)
-            h.set_weight(*lib_args(kind, k), rng.choice([0, 0.0]))
+            h.set_weight(*lib_args(kind, k), rng.choice([0, 0.0, 2**53 + 1, -3, 10**20]))
     if rng.random() < 0.5:  # isolated node with metadata
         free = [n for n in cfg.labels if n not in h.get_nodes()]
         if free:
@@ -250,10 +252,12 @@ def hif_case(ctx, rng, idx, tmp):
     names_n = rng.choice([["a", "b", "c", "d", "e", "f"], [10, 20, 30, 40, 50], ["n1", 2, "3", 4.5, "x"]])
     names_e = rng.choice([["e1", "e2", "e3", "e4", "e5"], [0, 1, 2, 3, 4], ["A", 7, "B", "C", 9]])
     n_e = rng.randint(1, len(names_e))
-    allow_dup_sets = rng.random() < 0.15
+    allow_dup_sets = rng.random() < 0.3
     members, seen = {}, set()
     for en in names_e[:n_e]:
         m = rng.sample(names_n, rng.randint(1, min(4, len(names_n))))
+        if allow_dup_sets and seen and rng.random() < 0.4:
+            m = list(rng.choice(sorted(seen, key=lambda x: sorted(map(repr, x)))))  # same node set under another edge name
         if frozenset(m) in seen and not allow_dup_sets:
             continue
         seen.add(frozenset(m))
@@ -366,7 +370,18 @@ def hif_case(ctx, rng, idx, tmp):
                 ok = False
             ctx.check("C06:hif", ok, "C06:hif:incidence-record-not-retrievable", lambda: wit(rec))
     else:
-        ctx.note("hif:duplicate-incidence-sets(existence only)")
+        ctx.note("hif:duplicate-incidence-sets")
+        # several edge names describe one node set: whichever record wins, it must be one of theirs (not lost)
+        by_set = {}
+        for rec in docc["edges"]:
+            if rec["edge"] in exp_sets:
+                by_set.setdefault(exp_sets[rec["edge"]], []).append(rec)
+        for fs, recs in by_set.items():
+            try:
+                got = H.get_edge_metadata(tuple(sorted(fs)))
+            except Exception:
+                got = None
+            ctx.check("C06:hif", got in recs, "C06:hif:edge-record-lost(duplicate incidence sets)", lambda: wit((got, recs)))
     if "metadata" in docc:
         ctx.check("C06:hif", H.get_hypergraph_metadata() == docc["metadata"], "C06:hif:document-metadata-differs", wit)
     if len(members) >= 2:
